@@ -1,0 +1,35 @@
+//go:build verif
+
+// Contracts checked by /verif/gvc (contract-based deductive verification).
+// This file contains comments only; it is compiled only under the "verif" build tag.
+
+package mem
+
+// The memory implementation of unack.Store refines the interface contract (persistence/unack) under the
+// abstraction  $has[i]  ==  has(s.unackpublish, i).
+
+//@ func New
+//@ props C04
+//@ ensures [C04] result != nil && isfresh(result) && result.unackpublish != nil && (forall i uint16 :: !has(result.unackpublish, i))
+
+//@ func (*Store).Init
+//@ props C04
+//@ requires [C04] s != nil && s.unackpublish != nil
+//@ modifies s.unackpublish
+//@ ensures [C04] result == nil && s.unackpublish != nil
+//@ ensures [C04] cleanStart ==> (forall i uint16 :: !has(s.unackpublish, i))
+//@ ensures [C04] !cleanStart ==> s.unackpublish == old(s.unackpublish)
+
+//@ func (*Store).Set
+//@ props C04
+//@ requires [C04] s != nil && s.unackpublish != nil
+//@ modifies map(s.unackpublish)
+//@ ensures [C04] result1 == nil && result0 == old(has(s.unackpublish, id))
+//@ ensures [C04] forall i uint16 :: has(s.unackpublish, i) == (i == id || old(has(s.unackpublish, i)))
+
+//@ func (*Store).Remove
+//@ props C04
+//@ requires [C04] s != nil && s.unackpublish != nil
+//@ modifies map(s.unackpublish)
+//@ ensures [C04] result == nil
+//@ ensures [C04] forall i uint16 :: has(s.unackpublish, i) == (i != id && old(has(s.unackpublish, i)))
